@@ -3,7 +3,7 @@ CONSTANTS
   Actors = {"rx", "s1", "s2"}
   Rx = "rx"
   Victims = {}
-  Prog <- Pa
+  Prog <- Pt
   Dur = 1
   RepopOnDisc = TRUE
 INVARIANTS DeliveredOnce NoInvented PerSenderOrder DrainThenDisconnected NothingLost
